@@ -148,7 +148,7 @@ impl Prop for C01Prop {
         }
     }
     fn rule(&self) -> String {
-        "lifecycle histories (0-40 ops over add_node/add_nodes/add_edge/add_edge_tuple/add_edges/add_edge_tuples/new_from_nodes_and_edges) stratified over all 96 GraphSpecs, 3-8 names whose sort order differs from insertion order, batches built to fail at a chosen element; each history runs under 2 hash keyings; after EVERY op: outcome kind, full state (node list in order with attributes, edge multiset with weight bits and attributes) vs the reference model, failure atomicity vs the real pre-state, batch prefix. distinct_nontrivial = distinct (specs, history) pairs with >= 1 rejected op and >= 1 stored edge at the end; one case in 1500 loads 2 100 - 12 500 edges (one to three batches or the constructor, same edge values re-submitted on multi-edge graphs) into 45-180 nodes and continues with a short tail (strategy thresholds); the large histories come in variants: dense (45-180 nodes), 2 048 - 2 600 nodes declared in one call with a few names repeated, a hub with 1 100 - 1 600 neighbours whose pairs receive second edges in a later call; in half of them a load of 260-420 edges into ANOTHER graph is rejected part-way on the same thread first (fault, then recovery, at scale)".into()
+        "lifecycle histories (0-40 ops over add_node/add_nodes/add_edge/add_edge_tuple/add_edges/add_edge_tuples/new_from_nodes_and_edges) stratified over all 96 GraphSpecs, 3-8 names whose sort order differs from insertion order, batches built to fail at a chosen element (one case in 250: batches of 64-1 600 elements over 40-1 100 names, the rejected element in the last fifth, followed by elements naming nodes not seen before); each history runs under 2 hash keyings; after EVERY op: outcome kind, full state (node list in order with attributes, edge multiset with weight bits and attributes) vs the reference model, failure atomicity vs the real pre-state, batch prefix. distinct_nontrivial = distinct (specs, history) pairs with >= 1 rejected op and >= 1 stored edge at the end; one case in 1500 loads 2 100 - 12 500 edges (one to three batches or the constructor, same edge values re-submitted on multi-edge graphs) into 45-180 nodes and continues with a short tail (strategy thresholds); the large histories come in variants: dense (45-180 nodes), 2 048 - 2 600 nodes declared in one call with a few names repeated, a hub with 1 100 - 1 600 neighbours whose pairs receive second edges in a later call; in half of them a load of 260-420 edges into ANOTHER graph is rejected part-way on the same thread first (fault, then recovery, at scale)".into()
     }
     fn assumptions(&self) -> Vec<String> {
         vec![
